@@ -78,8 +78,39 @@ def small_objs():
     return out
 
 
+BIG_POOL = (
+    [("known", ("int", i)) for i in range(10)] + [("known", ("int", -1))]
+    + [("known", ("str", s)) for s in ("", "a", "ab")] + [("known", ("bytes", "a"))]
+    + [("known", ("none",)), ("known", ("bool", 0)), ("known", ("bool", 1))]
+    + [("known", o) for o in LITERALS if o[0] == "inst"]
+)
+BIG_UNHASHABLE = [("list", []), ("list", [("int", 1), ("int", 2)]), ("dict", [], []), ("set", [("int", 1), ("int", 2)]),
+                  ("dict", [("str", "a")], [("list", [("int", 1)])]), ("list", [("list", [])]),
+                  ("tuple", [("list", [])])]
+BIG_EXTRA = [("typed", STR), ("typed", FLOAT), ("generic", LIST, [("typed", INT)]), ("typed", CID[U.A]),
+             ("seq", TUPLE, [("typed", INT)]), ("subclass", INT), ("generic", SET, [("typed", STR)])]
+
+
+def gen_big_union(rng, allow_any=False):
+    """A union of >= 10 members (MultiValuedValue switches to a hash-set fast path for its literal members at 10):
+    mostly distinct literals, sometimes an unhashable literal, sometimes non-literal members."""
+    n = rng.choice([9, 10, 10, 11, 12, 14])
+    ms = rng.sample(BIG_POOL, min(n, len(BIG_POOL)))
+    if rng.random() < 0.5:
+        ms[rng.randrange(len(ms))] = ("known", rng.choice(BIG_UNHASHABLE))
+    for _ in range(rng.choice([0, 0, 1, 2])):
+        e = rng.choice(BIG_EXTRA)
+        if e not in ms:
+            ms.insert(rng.randrange(len(ms) + 1), e)
+    if allow_any and rng.random() < 0.1:
+        ms.insert(rng.randrange(len(ms) + 1), ("any",))
+    return ("union", ms)
+
+
 def gen_ty(rng, depth=2, allow_any=False, allow_seq=True, top=True):
     r = rng.random()
+    if depth >= 1 and r < 0.03:
+        return gen_big_union(rng, allow_any)
     if depth <= 0 or r < 0.35:
         r2 = rng.random()
         if allow_any and r2 < 0.08:
